@@ -10,7 +10,7 @@ def table_sens():
         out.append("| %s | %s | %s | %d | %d | %.1f | %s |" % (r["mutant"], r["check"], r["expected"], r["exit"], r["violations"], r["seconds"], r["verdict"]))
     n = len(rows); bad = sum(1 for r in rows if r["verdict"] != "ok")
     out.append("")
-    out.append("%d edits (42 built-in + the kept seeded changes), %d wrong verdicts. Quick tier; this table is from a run with VERIF_SEED=1 (the seed the external check harness uses); the 42 built-in edits gave the same verdicts with the default seed." % (n, bad))
+    out.append("%d entries (%d built-in edits, %d kept seeded changes, %d behaviour-preserving rewrites), %d wrong verdicts. Quick tier, default VERIF_SEED; an earlier complete run with VERIF_SEED=1 (the seed the external check harness uses) gave the same verdicts for everything that existed then." % (n, sum(1 for r in rows if not r["mutant"].startswith(("seeded/", "harmless/"))), sum(1 for r in rows if r["mutant"].startswith("seeded/")), sum(1 for r in rows if r["mutant"].startswith("harmless/")), bad))
     return "\n".join(out)
 def table_det():
     rows = json.load(open(os.path.join(V, "selftest", "determinism.json")))
